@@ -192,7 +192,7 @@ def _put_effect(ctx, ns):
     sync_method(ctx, a.idict["_send_messages"], "put", [msg], {})
     if issubclass(msg.cls, B.DiameterRequest):
         a.idict["end_to_end_identifiers"].append(
-            ctx.call_method(msg.idict["_header"].slots["_end_to_end"], "hex", [], {}))
+            ctx.call_sym_method(msg.idict["_header"].slots["_end_to_end"], "hex", [], {}))
     return None
 
 
@@ -372,3 +372,218 @@ _answering_event("bromelia.statemachine.Closed.event_responder_conn_cer", SM.Clo
 _answering_event("bromelia.statemachine.Open.event_open_rcv_cer", SM.Open, CMD_CE, "answers-cer")
 _answering_event("bromelia.statemachine.Open.event_open_rcv_dwr", SM.Open, CMD_DW, "answers-dwr")
 _answering_event("bromelia.statemachine.Open.event_open_rcv_dpr", SM.Open, CMD_DP, "answers-dpr")
+
+
+# ------------------------------------------------------------------ 4. one tick of the Open state
+from pyvc.values import SObj as _SObj     # noqa: E402
+from bromelia.exceptions import ProcessRequestException    # noqa: E402
+
+
+def _receiver_is_open(ctx, ns):
+    return isinstance(ns["self"], _SObj) and ns["self"].cls is SM.Open
+
+
+def _take_effect(ctx, ns):
+    from pyvc.extmodels import sync_method
+    a = ns["self"].idict["association"]
+    sync_method(ctx, a.idict["lock"], "acquire", [], {})
+    m = sync_method(ctx, a.idict["_recv_messages"], "get", [], {})
+    sync_method(ctx, a.idict["lock"], "release", [], {})
+    return m
+
+
+def take_entry(self):
+    return ("take", self.association._recv_messages.st["items"][0])
+
+
+def snap_recv(self):
+    return ghost_set("rq0", list(self.association._recv_messages.st["items"]))
+
+
+@contract("bromelia.statemachine.State.get_message", prop="C07", name="open-tick")
+class _Take:
+    """In the Open state a received message is consumed ONLY while nothing is waiting to be sent (the
+    precondition is proved at the call site in Open.run): an answer still sitting un-serialised in the
+    send queue can therefore not have its identifiers overwritten by the next request."""
+    args = {"self": state_obj(SM.Open, T.NoneS, mode=T.Const("SERVER"),
+                              recv=T.Sync("queue", items=[inbound()], extra=True), send=T.Sync("queue"))}
+    at_calls = True
+    accepts = _receiver_is_open
+    native_accepts = lambda self: isinstance(self, SM.Open)      # noqa: E731
+    log_entry = take_entry
+    effect = _take_effect
+    check_effect = True
+    snapshot_spec = snap_recv
+
+    def requires(self):
+        a = self.association
+        return a._send_messages.empty() and len(a._recv_messages.st["items"]) >= 1 and not a.lock.st["held"]
+
+    def ensures_head_of_the_received_queue(self, result):
+        q0 = ghost_get("rq0")
+        return result is q0[0] and self.association._recv_messages.st["items"] == q0[1:] \
+            and self.association.lock.st["held"] == False
+
+
+@contract("bromelia.statemachine.make_logging", prop="C07", name="summary", also=("C06",))
+class _SMLogging:
+    args = {"msg": inbound()}
+    at_calls = True
+    returns = T.NoneS
+    proof = "table"
+    assumes = ("statemachine.make_logging only formats a debug line (no effect on the association)",)
+
+
+@contract("bromelia.process.BaseMessageProcessor.check_message", prop="C07", name="summary")
+class _CheckMessageSummary:
+    """C07 only needs: no template and no queue is touched; whether it may raise is C06's subject"""
+    args = {"self": processor(), "msg": inbound()}
+    at_calls = True
+    returns = T.NoneS
+    raises = (ProcessRequestException,)
+    proof = "table"
+    assumes = ("BaseMessageProcessor.check_message updates counters / pending requests only (C06 covers it)",)
+
+
+def count(log, kind):
+    n = 0
+    for e in log:
+        if e[0] == kind:
+            n += 1
+    return n
+
+
+def puts_after_take_answer_it(self, log):
+    """every base ANSWER template queued after the take carries the taken request's identifiers and is
+    followed by a flush before the tick ends"""
+    taken, ok = None, True
+    for i, e in enumerate(log):
+        if e[0] == "take":
+            taken = e[1]
+        elif e[0] == "put" and taken is not None:
+            b = self.association.base
+            if e[1] is b.cea or e[1] is b.dwa or e[1] is b.dpa:
+                ok = ok and e[2] == taken._header._hop_by_hop and e[3] == taken._header._end_to_end \
+                    and e[4] == taken._header._command_code and unbe(taken._header._flags) & 0x80 == 0x80 \
+                    and i + 1 < len(log) and log[i + 1][0] == "flush"
+    return ok
+
+
+@contract("bromelia.statemachine.Open.run", prop="C07", name="tick")
+class _OpenTick:
+    args = {"self": state_obj(SM.Open, T.NoneS, mode=T.Const("SERVER"), send=T.Sync("queue", extra=True))}
+    setup_spec = link
+
+    def ensures_at_most_one_message_taken(self):
+        return count(event_log(), "take") <= 1
+
+    def ensures_answers_belong_to_the_taken_request(self):
+        return puts_after_take_answer_it(self, event_log())
+
+    def exceptional(exc):
+        return is_instance_of(exc, ProcessRequestException)
+
+    def control_takes_while_sending(self):
+        return count(event_log(), "take") == 0
+
+
+# ------------------------------------------------------------------ 5. the flush (bounded: <= 2 queued messages)
+import bromelia.transport as TR                                          # noqa: E402
+from contracts.common import msg_shape, cat, slen, cat_len               # noqa: E402
+from contracts.l5_message import enc_hdr_of                              # noqa: E402
+from pyvc.spec import use_lemma                                          # noqa: E402
+
+SEND_MAX = 4096 * 64
+
+
+def wire_entry(self, mode, msg):
+    return ("wire", mode, msg)
+
+
+@contract("bromelia.transport.TcpConnection._set_selector_events_mask", prop="C07", name="summary",
+          also=("C05", "C06"))
+class _SelectorSummary:
+    """hand-over point to the transport thread (C05's subject): here only WHAT is handed over matters"""
+    args = {"self": T.Obj(TR.TcpClient, idict={}), "mode": T.Const("rw"), "msg": T.Bytes()}
+    at_calls = True
+    log_entry = wire_entry
+    returns = T.NoneS
+    proof = "table"
+    assumes = ("TcpConnection._set_selector_events_mask(mode, stream) registers `stream` with the selector; the "
+               "transport side is not covered by C07 (see C05)",)
+
+
+def wire_bytes(m):
+    return enc_hdr_of(m._header) + cat(m._avps)
+
+
+def _flush_assoc(items):
+    return association(mode=T.Const("SERVER"), recv=T.Sync("queue"), send=T.Sync("queue", items=items),
+                       active=T.Const(True))
+
+
+def fits(ms):
+    total = 0
+    for m in ms:
+        total = total + 20 + slen(m._avps)
+    return total <= SEND_MAX
+
+
+def _lemmas(ms):
+    ok = True
+    for m in ms:
+        ok = ok and use_lemma(cat_len, m._avps)
+    return ok
+
+
+def snap_flush(self):
+    return ghost_set("fq0", list(self._send_messages.st["items"]))
+
+
+def _flush_contract(n):
+    @contract("bromelia.setup.DiameterAssociation.send_message_from_queue", prop="C07", name="flush-%d" % n,
+              also=("C05",))
+    class _Flush:
+        """everything queued is serialised NOW (header with the identifiers it holds at this moment, then
+        its AVPs), in queue order, into the one stream handed to the transport; the queue is empty and
+        the lock free afterwards"""
+        args = {"self": _flush_assoc([msg_shape(cls=(B.DiameterAnswer, B.DiameterRequest)[i % 2])
+                                       for i in range(n)])}
+        snapshot_spec = snap_flush
+        bounded = "send queue of exactly %d message(s), each any header and any AVP list" % n
+
+        def requires(self):
+            q = self._send_messages.st["items"]
+            return _lemmas(q) and fits(q)
+
+        def ensures_one_stream_with_every_message_in_order(self):
+            q0, log = ghost_get("fq0"), event_log()
+            expect = b""
+            for m in q0:
+                expect = expect + wire_bytes(m)
+            return len(log) == 1 and log[0][0] == "wire" and log[0][1] == "rw" and log[0][2] == expect
+
+        def ensures_queue_empty_lock_free(self):
+            return len(self._send_messages.st["items"]) == 0 and self.lock.st["held"] == False
+
+        def ensures_requests_remembered_as_pending(self):
+            ok = True
+            for m in ghost_get("fq0"):
+                if is_instance_of(m, B.DiameterRequest):
+                    ok = ok and self.pending_requests[m._header._hop_by_hop.hex()] is m
+            return ok
+
+        def exceptional(exc):
+            return False
+
+        def control_reversed_or_empty(self):
+            q0, log = ghost_get("fq0"), event_log()
+            expect = b""
+            for m in q0:
+                expect = wire_bytes(m) + expect
+            return n >= 2 and log[0][2] == expect
+    return _Flush
+
+
+for _n in (0, 1, 2):
+    _flush_contract(_n)
